@@ -174,6 +174,12 @@ func monitor(rep *emit.Report, c *caseRun) {
 					}
 				}
 			}
+			// C12 / C03: a partial for a round outside the aggregator's window (head, head+4] is dropped:
+			// it is not cached, cannot be aggregated and triggers nothing
+			if s.ev.Round > s.obs.HeadBefore+4 && (len(s.obs.Puts) > 0 || len(s.obs.Syncs) > 0) {
+				rep.Fail("C12-partial-outside-window-not-ignored", fmt.Sprintf("a partial for round %d arrived while the head was %d (window ends at %d): %d beacons stored, %d sync requests made while handling it", s.ev.Round, s.obs.HeadBefore, s.obs.HeadBefore+4, len(s.obs.Puts), len(s.obs.Syncs)), in)
+				rep.Fail("C03-partial-outside-window-not-ignored", fmt.Sprintf("a partial for round %d (head %d, window ends at %d) was aggregated or triggered a sync", s.ev.Round, s.obs.HeadBefore, s.obs.HeadBefore+4), in)
+			}
 			// C05 / C07: a valid partial of another member of the LIVE group (after a resharing: the new
 			// one, whatever index the member holds in it), for a round in the window, is never refused
 			if s.obs.Rejected && s.obs.Valid && s.tickingAfter && s.obs.LiveBefore >= 0 && s.obs.LiveBefore == s.obs.LiveAfter && s.ev.Round > s.obs.HeadBefore {
